@@ -68,7 +68,9 @@ def station_limits(rep, tier, sd):
 
 
 def run(tier):
-    return sim.sim_run("C05", tier, sim.check_c05, inject=False, extra_units=[kernel.UNIT], extra=station_limits)
+    # the vehicle-curve limit is enforced through LoadingCurve.clamped / power_from_soc: the curve unit (C03) is part of this check
+    import c03
+    return sim.sim_run("C05", tier, sim.check_c05, inject=False, extra_units=[kernel.UNIT, c03.UNIT], extra=station_limits)
 
 
 def replay(payload):
@@ -77,6 +79,9 @@ def replay(payload):
         rep = C.Report("C05", "quick")
         station_limits(rep, "quick", C.seed())
         return 1 if rep.violations else 0
+    if payload["input"].get("unit") == "curve":
+        import c03
+        return c03.replay(payload)
     if payload["input"].get("unit") == "kernel":
         out = kernel.UNIT.run_impl(payload["input"]["case"])
         v = kernel.UNIT.check_property(payload["input"]["case"], out)
